@@ -48,6 +48,7 @@ func randTOp(r *rng, cur, n int) (string, bool) {
 }
 
 func genC03(tier string, r *rng, emit func(string)) {
+	intPoolMotifs(emit)
 	// strided vector-LIKE views of rank 3 and 4 (one long axis, the others of length one, strides
 	// from a bigger parent): lazy and physical transposition, the copying spellings
 	for _, v := range []string{"new:rm:1,1,4,3:0;slice:0:_/_/_/1.2.0", "new:rm:1,1,8:0;slice:0:_/_/0.8.2", "new:rm:1,4,1,3:0;slice:0:_/_/_/2.3.0",
